@@ -275,6 +275,31 @@ func TestMapOrd(t *testing.T) {
 		report(Ev{"engine": "bubble", "subject": "mapord", "runs": runs, "events": w.n, "leaks": leaks, "source": "tlc-schedules"})
 		return
 	}
+	// directed: results are ready, the consumer asks with a context that has already ended, then with a live one: whatever
+	// the first call did, no result may be lost (which arm a ready select takes is the runtime's choice: repeated)
+	for p := 1; p <= 2; p++ {
+		for k := 1; k <= 3; k++ {
+			for rep := 0; rep < 4; rep++ {
+				s := moScen{Kind: "stream", P: p, Buf: p + 1, Fail: map[int]bool{}}
+				for v := 1; v <= k; v++ {
+					s.Steps = append(s.Steps, moStep{A: "item", V: v})
+				}
+				for v := 1; v <= k; v++ {
+					s.Steps = append(s.Steps, moStep{A: "rel", V: v})
+				}
+				s.Steps = append(s.Steps, moStep{A: "cancel", Ctx: 1})
+				for v := 0; v <= k; v++ {
+					s.Steps = append(s.Steps, moStep{A: "next", Ctx: 1}, moStep{A: "next"})
+				}
+				s.Steps = append(s.Steps, moStep{A: "end"}, moStep{A: "next"}, moStep{A: "next"})
+				evs, leak, msg := runMapOrd(t, s)
+				if leak {
+					leaks++
+				}
+				writeRuns(w, &runs, evs, leak, msg, Ev{"kind": s.Kind, "p": s.P, "buf": s.Buf, "gmp": runtime.GOMAXPROCS(-1), "mctx": s.MCtx})
+			}
+		}
+	}
 	// directed: the look-ahead is filled (results finished, nobody reads), then Close / a late first Next
 	for p := 1; p <= 3; p++ {
 		for extra := 0; extra <= 3; extra++ {
